@@ -115,8 +115,11 @@ Definition filter_wf (f : mfilter) : bool :=
 Definition gen_addr : G addr :=
   gen* a1 := gnum 8 in gen* a2 := gnum 8 in gen* a3 := gnum 8 in gen* a4 := gnum 8 in gen* p := gnum 16 in
   gret (a1, a2, a3, a4, if (a1 =? 0) && (a2 =? 0) && (a3 =? 0) && (a4 =? 0) && (p =? 0) then 1 else p).
-Definition gen_page_len : G N := gen* k := below 8 in
-  if k =? 0 then gret 1 else if k =? 1 then gret 225 else if k =? 2 then gret 2 else below 12.
+(* a datagram of the master holds at most 231 entries after its 6-byte header (1400-byte receive): the lengths around
+   that bound are drawn often (the page generator adds one more address, the one the next request is seeded with) *)
+Definition gen_page_len : G N := gen* k := below 10 in
+  if k =? 0 then gret 1 else if k =? 1 then gret 225 else if k =? 2 then gret 2
+  else if k =? 3 then gret 229 else if k =? 4 then gret 230 else if k =? 5 then gret 228 else below 12.
 (* pages end on pairwise different addresses (consecutive pages often share the IP and differ in the port only): the i-th full page ends on 10.77.(i/2).1:27015+i *)
 Fixpoint gen_pages (n : nat) (i : N) (prev : option addr) : G (list (list addr)) :=
   match n with
@@ -136,6 +139,6 @@ Definition gen_listing : G listing :=
   gen* again := chance 1 3 in
   let before := match rev pages with p :: _ => if again then last p zero_addr :: before0 else before0 | [] => before0 end in
   gen* tail := chance 1 3 in
-  gen* na := (if tail then below 5 else gret 0) in gen* after := grepeat (N.to_nat na) gen_addr in
+  gen* na := (if tail && (nb <? 200) then below 5 else gret 0) in     (* the datagram stays within the 1400-byte receive *) gen* after := grepeat (N.to_nat na) gen_addr in
   gen* empty := chance 1 6 in
   gret (mk_listing pages (if empty then [] else before) after).
